@@ -422,9 +422,10 @@ theorem C08_parse_tree (x : Interner) (hx : Interner.WF x) (m : Mode) (len : Nat
     makes the calls `pfx <prefix as written>`, `name <local name as written> <ns>` first, `ns` being
     what the prefix resolves to with the tag's own declarations on top of the stack, and the
     element node stores the id the second call returned; (3) each attribute likewise (no
-    namespace when unprefixed); (4) a declaration makes `pfx <prefix>`, `ns <decoded value>` and
-    queues the two ids returned for the namespace node; (5) a PI makes `name <target> <no namespace>`
-    and stores the id returned.  What `ns` is as a STRING is `C02_scope_element` / `_attribute`. -/
+    namespace when unprefixed); (4) an accepted declaration makes `pfx <prefix>`, `ns <decoded value>`
+    and queues the two ids returned for the namespace node (a reserved declaration or `xmlns:p=""`
+    is refused BEFORE anything is registered: `prefixRegs`); (5) a PI (target other than `xml`,
+    which is refused before the call) makes `name <target> <no namespace>` and stores the id returned.  What `ns` is as a STRING is `C02_scope_element` / `_attribute`. -/
 theorem C08_parse_places (b : Builder) :
     (∀ pfx loc : StrSpan, ∃ eb, (b.element pfx loc).eb = some eb ∧ eb.pfx = pfx.text ∧
       eb.name = loc.text ∧ eb.namespaces = []) ∧
@@ -444,7 +445,7 @@ theorem C08_parse_places (b : Builder) :
           [((b.env.regAll (prefixRegs p u)).2.getD 0 0, (b.env.regAll (prefixRegs p u)).2.getD 1 0)]) ∧
     (∀ target content, (b.processingInstruction target content).cur.rkids =
       .node (.pi ((b.env.regAll [.name target.text Env.noNamespace]).2.getD 0 0)
-        (content.map (fun c => c.text))) [] :: b.cur.rkids) :=
+        (content.map (fun c => normalizeLineEnds c.text))) [] :: b.cur.rkids) :=
   ⟨element_place b, fun _ _ heb hr => openElement_place heb hr, fun _ _ _ _ _ h => attribute_place h,
    fun _ _ _ _ hr => prefix_place hr, processingInstruction_place b⟩
 
